@@ -42,10 +42,12 @@ class Report:
         self.unsupported = 0
         self.rule = ""
         self.t_start = time.time()
+        self.is_known = None
+        self.n_known_violations = 0
 
     def case(self, case, nontrivial, tags=()):
         self.evaluations += 1
-        if self.violations and time.time() - self.t_start > (150 if self.tier == "quick" else 1800):
+        if len(self.violations) > self.n_known_violations and time.time() - self.t_start > (150 if self.tier == "quick" else 1800):
             raise Enough("a failing input is in hand and the run has become slow")
         for t in tags:
             self.dist[t] += 1
@@ -58,14 +60,17 @@ class Report:
 
     def disagree(self, tie, case, impl_out, model_out):
         self.disagreements.append({"tie": tie, "case": case, "impl": impl_out, "model": model_out})
-        if len(self.disagreements) >= self.MAX_DISAGREEMENTS and self.violations:
+        if len(self.disagreements) >= self.MAX_DISAGREEMENTS and len(self.violations) > self.n_known_violations:
             raise Enough("%d correspondence disagreements and %d violations" % (len(self.disagreements), len(self.violations)))
 
     def violate(self, what, case, expected, observed, model_agrees_with_spec=None):
         self.violations.append({"what": what, "case": case, "expected": expected, "observed": observed,
                                 "model_agrees_with_spec": model_agrees_with_spec})
-        if len(self.violations) >= self.MAX_VIOLATIONS:
-            raise Enough("%d violations" % len(self.violations))
+        # violations covered by a known finding do not count towards the cut-off (they occur on the unchanged tree)
+        if self.is_known is not None and self.is_known(self.violations[-1]):
+            self.n_known_violations += 1
+        if len(self.violations) - self.n_known_violations >= self.MAX_VIOLATIONS:
+            raise Enough("%d violations" % (len(self.violations) - self.n_known_violations))
 
 
 class Ctx:
